@@ -91,6 +91,104 @@ pub fn run_timed(toks: &[&str]) -> String {
     run_with(toks, true, true)
 }
 
+/// updl <drift> <n> { <off_ns> <wait_ns> <message> }*n : as updt, but the writer runs on its own thread and is
+/// already waiting at its mailbox when each message arrives (as in the running daemon): while it waits the
+/// clock reads NOW + off - wait, and NOW + off from the moment the message is sent. -> as upd
+pub fn run_live(toks: &[&str]) -> String {
+    use std::sync::{Arc, Mutex};
+    let drift: u32 = p(toks[0]);
+    let n: usize = p(toks[1]);
+    let mut i = 2;
+    let (mut mboxes, dbox) = new_channel_web(vec![ChannelId::ClockErrorBoundPoller, ChannelId::ShmWriter, ChannelId::MainThread]);
+    let mbox = mboxes.get_mailbox(&ChannelId::ShmWriter).unwrap();
+    let _main = mboxes.get_mailbox(&ChannelId::MainThread).unwrap();
+    let ctx = Context { mbox, dbox: dbox.clone(), channel_id: ChannelId::ShmWriter };
+    let mut msgs: Vec<(i64, i64, Message)> = Vec::new();
+    for _ in 0..n {
+        let off: i64 = p(toks[i]);
+        let wait: i64 = p(toks[i + 1]);
+        i += 2;
+        match toks[i] {
+            "r" => {
+                let v: Vec<i64> = toks[i + 1..i + 12].iter().map(|s| p::<i64>(s)).collect();
+                let t = mk_tracking_aged(0, v[3] as u16, v[5], v[6], v[7], v[2] as u32, v[0] as u32, v[1] as u32, v[4] as u32);
+                let as_of = libc::timespec { tv_sec: v[9], tv_nsec: v[10] };
+                msgs.push((off, wait, Message::ClockErrorBoundData((t, v[8], as_of))));
+                i += 12;
+            }
+            "m" => {
+                let g: i64 = p(toks[i + 1]);
+                msgs.push((off, wait, if g != 0 { Message::ChronyNotRespondingGracePeriod } else { Message::ChronyNotResponding }));
+                i += 2;
+            }
+            "p" => {
+                let g: i64 = p(toks[i + 1]);
+                msgs.push((off, wait, if g != 0 { Message::PhcErrorBoundRetrievalFailedGracePeriod } else { Message::PhcErrorBoundRetrievalFailed }));
+                i += 2;
+            }
+            t => panic!("updl: bad message tag {}", t),
+        }
+    }
+    let path = scratch_dir().join("updl-segment");
+    let _ = std::fs::remove_file(&path);
+    let w = ShmWriter::new(&path).expect("ShmWriter::new");
+    vclock::set_real(NOW_S, NOW_N);
+    vclock::only_thread(0);
+    vclock::enable(true);
+    let log: Arc<Mutex<Vec<[i64; 7]>>> = Arc::new(Mutex::new(Vec::new()));
+    let (tx, rx) = std::sync::mpsc::channel::<()>();
+    struct SendW(ShmWriter, Context);
+    unsafe impl Send for SendW {}
+    let sw = SendW(w, ctx);
+    let log2 = log.clone();
+    let th = std::thread::spawn(move || {
+        let sw = sw;
+        verif::install(Some(Box::new(move |a: &Access| {
+            if let Access::Store16 { addr, ord, val } = a {
+                if *val != 0 && *val % 2 == 0 {
+                    let rec: ClockErrorBound = unsafe { std::ptr::read_unaligned((*addr + 2) as *const ClockErrorBound) };
+                    unsafe { (*(*addr as *const std::sync::atomic::AtomicU16)).store(*val, *ord) };
+                    log2.lock().unwrap().push(fields(&rec));
+                    let _ = tx.send(());
+                    return Reply::Skip;
+                }
+            }
+            Reply::Pass
+        })));
+        let r = std::panic::catch_unwind(std::panic::AssertUnwindSafe(|| dverif::run_updater(sw.1, sw.0, drift)));
+        verif::install(None);
+        r.is_ok()
+    });
+    let nap = |ms: u64| std::thread::sleep(std::time::Duration::from_millis(ms));
+    for (off, wait, m) in msgs {
+        set_now_plus(off - wait);
+        nap(15); // the writer is at its mailbox by now
+        set_now_plus(off);
+        dbox.send(&ChannelId::ShmWriter, m).unwrap();
+        for _ in 0..2000 {
+            if rx.try_recv().is_ok() {
+                break;
+            }
+            nap(1);
+        }
+    }
+    nap(5);
+    dbox.send(&ChannelId::ShmWriter, Message::ThreadAbort).unwrap();
+    let ok = th.join().unwrap_or(false);
+    vclock::enable(false);
+    if !ok {
+        return "panic".into();
+    }
+    let log = log.lock().unwrap();
+    let mut out = format!("{}", log.len());
+    for a in log.iter() {
+        for x in a {
+            out.push_str(&format!(" {}", x));
+        }
+    }
+    out
+}
+
 fn run_with(toks: &[&str], timed: bool, fresh_file: bool) -> String {
     let drift: u32 = p(toks[0]);
     let n: usize = p(toks[1]);
@@ -135,7 +233,15 @@ fn run_with(toks: &[&str], timed: bool, fresh_file: bool) -> String {
     if fresh_file {
         let _ = std::fs::remove_file(&path);
     }
+    // a daemon that starts over the segment of an earlier instance takes it over as it is: until its own first
+    // publication clients keep reading the record that was there, bit for bit
+    let before = if fresh_file { None } else { std::fs::read(&path).ok() };
     let w = ShmWriter::new(&path).expect("ShmWriter::new");
+    if let (Some(b), Ok(a)) = (before, std::fs::read(&path)) {
+        if b.len() >= 72 && a.len() >= 72 && b[14] % 2 == 0 && (b[14] != 0 || b[15] != 0) && (b[14..68] != a[14..68]) {
+            return format!("MISMATCH a daemon starting over a valid segment altered it before publishing anything: generation+record bytes {:?} -> {:?}", &b[14..68], &a[14..68]);
+        }
+    }
     if let Some(o) = offs.first() {
         set_now_plus(*o);
     }
